@@ -122,6 +122,7 @@ func BuildHandshake(s Source, keys []refsrv.RSAKeyJSON, corner Corner, inject bo
 			hs.Splits = append(hs.Splits, []int{0, 1, 2, 3, 4, 5, 12, 24, 40, 41, 100, 1 << 20}[s.Int("split", 12)])
 		}
 	}
+	sc.ServerClockOffset = DrawClockOffset(s)
 	sc.HS = hs
 	needInject := inject || corner.Field == "nonce" || corner.Field == "new_nonce" || corner.Field == "new_nonce_hash1" || corner.Field == "rsa_ciphertext" || corner.Field == "g_b" || corner.Field == "g_ab"
 	if needInject {
